@@ -359,8 +359,10 @@ double splinetable<Alloc>::ndsplineeval_deriv(const double* x, const int* center
 						  x[n], centers[n], order[n],
 						  localbasis[n]);
 		} else {
+			//same one-sided convention at the knots as the branches above
+			auto deriv = (x[n] < knots[n][naxes[n]] ? bspline_deriv : bspline_deriv_left);
 			for (uint32_t i = 0; i <= order[n]; i++)
-				localbasis[n][i] = bspline_deriv(
+				localbasis[n][i] = deriv(
 												   &knots[n][0], x[n],
 												   centers[n] - order[n] + i, 
 												   order[n], derivatives[n]);
@@ -577,8 +579,10 @@ double splinetable<Alloc>::evaluator_type<Float>::ndsplineeval_deriv(const doubl
 						  x[n], centers[n], table.order[n],
 						  localbasis[n]);
 		} else {
+			//same one-sided convention at the knots as the branches above
+			auto deriv = (x[n] < table.knots[n][table.naxes[n]] ? bspline_deriv : bspline_deriv_left);
 			for (uint32_t i = 0; i <= table.order[n]; i++)
-				localbasis[n][i] = bspline_deriv(
+				localbasis[n][i] = deriv(
 												   &table.knots[n][0], x[n],
 												   centers[n] - table.order[n] + i, 
 												   table.order[n], derivatives[n]);
